@@ -59,18 +59,21 @@ WelfordOnline_Def(N, xs) ==
 WelfordOnlineMean_Def(N, xs) == IF Len(xs) = 0 THEN RAny ELSE RQ(QMean(LastK(xs, N)))
 WelfordOnlineVar_Def(N, xs)  == IF Len(xs) = 0 THEN RAny ELSE RQ(WVar(LastK(xs, N)))
 
+(* x / std and (x - mean) / std are formed through their squares, x^2 / var, as exact rationals: the result is of
+   order 1 whatever the unit of the inputs, so the 20 fixed-point decimals never underflow *)
+SignedSqrt(num, var) == LET r == FSqrt(FFromQ(QDiv(QSq(num), var))) IN IF QSign(num) < 0 THEN FNeg(r) ELSE r
 Vst_Def(N, xs) ==
     LET t == Len(xs) w == LastK(xs, N) IN
     IF t = 0 THEN RAny
     ELSE LET x == Last(xs)
-             v == IF QIsZero(WVar(w)) THEN RQ(x) ELSE RF(FDiv(FFromQ(x), WStdF(w)))
+             v == IF QIsZero(WVar(w)) THEN RQ(x) ELSE RF(SignedSqrt(x, WVar(w)))
          IN  IF t >= N THEN v ELSE (IF v[1] = "q" THEN ROQ(v[2]) ELSE ROF(v[2]))
 
 Vsct_Def(N, xs) ==
     LET t == Len(xs) w == LastK(xs, N) IN
     IF t = 0 THEN RAny
     ELSE LET x == Last(xs)
-             v == IF QIsZero(WVar(w)) THEN RQ(QZero) ELSE RF(FDiv(FFromQ(QSub(x, QMean(w))), WStdF(w)))
+             v == IF QIsZero(WVar(w)) THEN RQ(QZero) ELSE RF(SignedSqrt(QSub(x, QMean(w)), WVar(w)))
          IN  IF t >= N THEN v ELSE (IF v[1] = "q" THEN ROQ(v[2]) ELSE ROF(v[2]))
 
 HLNormalizer_Def(N, xs) ==
@@ -132,7 +135,7 @@ CTI_Def(N, xs) ==
              vy  == QSub(QMul(n, syy), QSq(sy))
              cov == QSub(QMul(n, sxy), QMul(sx, sy))
          IN  IF QSign(vx) <= 0 \/ QSign(vy) <= 0 THEN RQ(QZero)
-             ELSE RF(FDiv(FFromQ(cov), FSqrt(FFromQ(QMul(vx, vy)))))
+             ELSE RF(SignedSqrt(cov, QMul(vx, vy)))        \* sign(cov) sqrt(cov^2 / (vx vy)): unit-free
 
 SgnQ(q) == QSign(q)
 (* Kendall's tau between the values in the window and time: all n(n-1)/2 pairs, ties contribute 0 *)
